@@ -11,16 +11,75 @@ theorem maxFuture_eq : maxFuture = 30000000000 := rfl
 theorem maxPadding_eq : maxPadding = 1024 := rfl
 theorem minPadding_eq : minPadding = 12 := rfl
 
-/-! ### the scan loop of `MessageIDBuf.Consume` -/
+/-! ### the scan loop of `MessageIDBuf.Consume`, for every sound structure -/
 
-theorem scanMin_none_iff (x : Int) : ∀ (l : List Int) (i : Nat) (acc : Nat × Int),
-    scanMin x l i acc = none ↔ x ∈ l := by
+/-- Structures of the loop for which `Consume` is correct: the minimum search starts from the
+first slot, and the loop has exactly the duplicate test and the minimum update — as independent
+ifs in either order, or as switch cases with the duplicate test first. -/
+def good (sh : Shape) : Bool :=
+  sh.initFirst && (match sh.items with
+    | [.dup, .min _] => true
+    | [.min _, .dup] => !sh.exclusive
+    | _ => false)
+
+def strictOf (sh : Shape) : Bool :=
+  match sh.items with
+  | [.dup, .min s] => s
+  | [.min s, .dup] => s
+  | _ => true
+
+/-- The structure found in the current source is a sound one. -/
+theorem shape_good : good shape = true := by decide
+
+theorem below_true_le (s : Bool) (a b : Int) (h : below s a b = true) : a ≤ b := by
+  unfold below at h; cases s <;> simp at h <;> omega
+
+theorem below_false_le (s : Bool) (a b : Int) (h : below s a b = false) : b ≤ a := by
+  unfold below at h; cases s <;> simp at h <;> omega
+
+/-- The loop in normal form: duplicate test, then minimum update with `<` or `≤`. -/
+def scanMinS (s : Bool) (newID : Int) : List Int → Nat → Nat × Int → Option (Nat × Int)
+  | [], _, acc => some acc
+  | id :: rest, i, acc =>
+    if id = newID then none
+    else scanMinS s newID rest (i + 1) (if below s id acc.2 then (i, id) else acc)
+
+theorem slotTests_good (sh : Shape) (hg : good sh = true) (x : Int) (i : Nat) (id : Int) (acc : Nat × Int) :
+    slotTests sh.exclusive x i id sh.items acc =
+      if id = x then none else some (if below (strictOf sh) id acc.2 then (i, id) else acc) := by
+  unfold good at hg
+  unfold strictOf
+  rcases hi : sh.items with _ | ⟨a, _ | ⟨b, _ | ⟨c, r⟩⟩⟩ <;> rw [hi] at hg <;> simp at hg
+  all_goals (cases a <;> cases b <;> simp at hg)
+  · -- [dup, min s]
+    rename_i s
+    by_cases hx : id = x <;> by_cases hb : below s id acc.2 = true <;>
+      cases he : sh.exclusive <;> simp [slotTests, hx, hb]
+  · -- [min s, dup], not exclusive
+    rename_i s
+    have he : sh.exclusive = false := hg.2
+    by_cases hx : id = x <;> by_cases hb : below s id acc.2 = true <;> simp [slotTests, hx, hb, he]
+
+theorem scanW_good (sh : Shape) (hg : good sh = true) (x : Int) : ∀ (l : List Int) (i : Nat) (acc : Nat × Int),
+    scanW sh x l i acc = scanMinS (strictOf sh) x l i acc := by
   intro l
   induction l with
-  | nil => intro i acc; simp [scanMin]
+  | nil => intro i acc; rfl
   | cons id rest ih =>
     intro i acc
-    simp only [scanMin]
+    simp only [scanW, scanMinS, slotTests_good sh hg]
+    by_cases hx : id = x
+    · simp [hx]
+    · simp only [hx, if_false]; exact ih _ _
+
+theorem scanMinS_none_iff (s : Bool) (x : Int) : ∀ (l : List Int) (i : Nat) (acc : Nat × Int),
+    scanMinS s x l i acc = none ↔ x ∈ l := by
+  intro l
+  induction l with
+  | nil => intro i acc; simp [scanMinS]
+  | cons id rest ih =>
+    intro i acc
+    simp only [scanMinS]
     by_cases h : id = x
     · simp [h]
     · simp only [h, if_false, ih, List.mem_cons]
@@ -31,24 +90,26 @@ theorem scanMin_none_iff (x : Int) : ∀ (l : List Int) (i : Nat) (acc : Nat × 
         · exact absurd hx.symm h
         · exact hx
 
-theorem scanMin_some (x : Int) : ∀ (l : List Int) (i mi : Nat) (m : Int) (r : Nat × Int),
-    scanMin x l i (mi, m) = some r →
+theorem scanMinS_some (s : Bool) (x : Int) : ∀ (l : List Int) (i mi : Nat) (m : Int) (r : Nat × Int),
+    scanMinS s x l i (mi, m) = some r →
     r.2 ≤ m ∧ (∀ y ∈ l, r.2 ≤ y) ∧ (r = (mi, m) ∨ (i ≤ r.1 ∧ l[r.1 - i]? = some r.2)) := by
   intro l
   induction l with
   | nil =>
     intro i mi m r h
-    simp only [scanMin, Option.some.injEq] at h
+    simp only [scanMinS, Option.some.injEq] at h
     subst h
     simp
   | cons id rest ih =>
     intro i mi m r h
-    simp only [scanMin] at h
+    simp only [scanMinS] at h
     by_cases hx : id = x
     · simp [hx] at h
     · simp only [hx, if_false] at h
-      by_cases hlt : id < m
-      · simp only [hlt, if_true] at h
+      cases hlt : below s id m with
+      | true =>
+        simp only [hlt, if_true] at h
+        have hle := below_true_le s id m hlt
         obtain ⟨h1, h2, h3⟩ := ih (i + 1) i id r h
         refine ⟨by omega, ?_, ?_⟩
         · intro y hy
@@ -61,7 +122,9 @@ theorem scanMin_some (x : Int) : ∀ (l : List Int) (i mi : Nat) (m : Int) (r : 
           · refine ⟨by omega, ?_⟩
             have : r.1 - i = (r.1 - (i + 1)) + 1 := by omega
             rw [this, List.getElem?_cons_succ]; exact h4
-      · simp only [hlt, if_false] at h
+      | false =>
+        simp only [hlt, Bool.false_eq_true, if_false] at h
+        have hle := below_false_le s id m hlt
         obtain ⟨h1, h2, h3⟩ := ih (i + 1) mi m r h
         refine ⟨h1, ?_, ?_⟩
         · intro y hy
@@ -75,37 +138,56 @@ theorem scanMin_some (x : Int) : ∀ (l : List Int) (i mi : Nat) (m : Int) (r : 
             have : r.1 - i = (r.1 - (i + 1)) + 1 := by omega
             rw [this, List.getElem?_cons_succ]; exact h4
 
-/-- The three outcomes of `Consume` on a non-empty buffer. -/
-theorem consume_cases (b : List Int) (hb : b ≠ []) (x : Int) :
-    (x ∈ b ∧ consume b x = (b, false)) ∨
+/-- The three outcomes of `Consume` on a non-empty buffer, for every sound structure. -/
+theorem consumeW_cases (sh : Shape) (hg : good sh = true) (b : List Int) (hb : b ≠ []) (x : Int) :
+    (x ∈ b ∧ consumeW sh b x = (b, false)) ∨
     (x ∉ b ∧ ∃ k m, b[k]? = some m ∧ (∀ y ∈ b, m ≤ y) ∧
-      ((x < m ∧ consume b x = (b, false)) ∨ (¬ x < m ∧ consume b x = (b.set k x, true)))) := by
+      ((x < m ∧ consumeW sh b x = (b, false)) ∨ (¬ x < m ∧ consumeW sh b x = (b.set k x, true)))) := by
   cases b with
   | nil => exact absurd rfl hb
   | cons b0 t =>
-    have e : consume (b0 :: t) x = (match scanMin x (b0 :: t) 0 (0, b0) with
+    have hinit : sh.initFirst = true := by
+      unfold good at hg; simp at hg; exact hg.1
+    have e : consumeW sh (b0 :: t) x = (match scanMinS (strictOf sh) x (b0 :: t) 0 (0, b0) with
       | none => (b0 :: t, false)
-      | some (minIDx, minID) => if x < minID then (b0 :: t, false) else ((b0 :: t).set minIDx x, true)) := rfl
-    cases h : scanMin x (b0 :: t) 0 (0, b0) with
+      | some (minIDx, minID) =>
+        if below sh.tailStrict x minID then (b0 :: t, false) else ((b0 :: t).set minIDx x, true)) := by
+      simp only [consumeW, scanW_good sh hg, hinit, if_true]
+      rfl
+    cases h : scanMinS (strictOf sh) x (b0 :: t) 0 (0, b0) with
     | none =>
       left
       rw [e, h]
-      exact ⟨(scanMin_none_iff x _ _ _).mp h, rfl⟩
+      exact ⟨(scanMinS_none_iff _ x _ _ _).mp h, rfl⟩
     | some r =>
       right
       have hx : x ∉ b0 :: t := by
         intro hm
-        have := (scanMin_none_iff x (b0 :: t) 0 (0, b0)).mpr hm
+        have := (scanMinS_none_iff (strictOf sh) x (b0 :: t) 0 (0, b0)).mpr hm
         rw [h] at this; cases this
-      obtain ⟨_, h2, h3⟩ := scanMin_some x (b0 :: t) 0 0 b0 r h
-      refine ⟨hx, r.1, r.2, ?_, h2, ?_⟩
-      · rcases h3 with h3 | ⟨_, h4⟩
+      obtain ⟨_, h2, h3⟩ := scanMinS_some (strictOf sh) x (b0 :: t) 0 0 b0 r h
+      have hk : (b0 :: t)[r.1]? = some r.2 := by
+        rcases h3 with h3 | ⟨_, h4⟩
         · subst h3; rfl
         · simpa using h4
-      · rw [e, h]
-        by_cases hlt : x < r.2
-        · left; exact ⟨hlt, by simp [hlt]⟩
-        · right; exact ⟨hlt, by simp [hlt]⟩
+      have hne : x ≠ r.2 := fun e' => hx (e' ▸ List.mem_iff_getElem?.mpr ⟨r.1, hk⟩)
+      refine ⟨hx, r.1, r.2, hk, h2, ?_⟩
+      rw [e, h]
+      cases hb' : below sh.tailStrict x r.2 with
+      | true =>
+        left
+        have := below_true_le _ _ _ hb'
+        exact ⟨by omega, by simp [hb']⟩
+      | false =>
+        right
+        have := below_false_le _ _ _ hb'
+        exact ⟨by omega, by simp [hb']⟩
+
+theorem consume_cases (b : List Int) (hb : b ≠ []) (x : Int) :
+    (x ∈ b ∧ consume b x = (b, false)) ∨
+    (x ∉ b ∧ ∃ k m, b[k]? = some m ∧ (∀ y ∈ b, m ≤ y) ∧
+      ((x < m ∧ consume b x = (b, false)) ∨ (¬ x < m ∧ consume b x = (b.set k x, true)))) :=
+  consumeW_cases shape shape_good b hb x
 
 theorem consume_length (b : List Int) (x : Int) : (consume b x).1.length = b.length := by
   cases b with
